@@ -128,6 +128,16 @@ func runC17(c *Ctx) {
 		})
 		c.Floor("C17.5-returns-before-the-delete", nR, 1)
 	}
+	// the object sent to Create carries no resourceVersion (the API server refuses a create that has one; the converted
+	// copy of the built-in set does carry the built-in object's)
+	if len(create.Call.Args) >= 2 {
+		hostFn := c.E.FnOf(c.hostOf(fi, create.Call))
+		if want := c.TryWantTerm(hostFn, create.Call.Pos(), "$1.ResourceVersion", create.Call.Args[1]); want != nil {
+			hfn, han := c.Analysis(c.hostOf(fi, create.Call))
+			_ = hfn
+			c.Implies(han.StateAtExpr(create.Call), gf.FEq(want, gf.ConstStr("")), "C17.4-created-object-has-no-resource-version", "Upgrade: Create argument", create.Call.Pos())
+		}
+	}
 	mustPass("create-or-update of the Advanced set", stmt(create), stmt(update))
 	mustPass("UpdateStatus", stmt(ustatus))
 	mustPass("the revision List", stmt(list))
